@@ -417,7 +417,7 @@ var upNames = []string{"a.jpg", "01cd", "x01cdy", "n~\x7e.bin", strings.Repeat("
 func init() {
 	vc.Register(&vc.Check{
 		ID: "C15", Level: "model_checking",
-		Rule: "the real attachment connection loop on scripted connections: file sets of 1..2 files (thorough 3), sizes 1..6 (plus one file of 2.5 x 64 KiB chunks), chunk sizes 1..3, ALL chunk orders (<= 4 chunks: all permutations; more: rotations and reversal), one resent chunk at every position, names and alarm IDs from {a.jpg, 01cd, x01cdy, a name with 0x7E, a 50-byte name}, the five dialects; every stream cut into reads: one unit per read, all coalesced, EVERY 1-cut, and every 2-cut among positions within 1 byte of a frame/chunk boundary, marker or length field (thorough: every 2-cut of streams <= 500 bytes). " +
+		Rule: "the real attachment connection loop on scripted connections: file sets of 1..2 files (thorough 3), sizes 1..6 (plus one file of 2.5 x 64 KiB chunks), chunk sizes 1..3, ALL chunk orders (<= 4 chunks: all permutations; more: rotations and reversal), one resent chunk at every position and behind the completion frame, a lost chunk followed by the completion report / resend / second report round, names and alarm IDs from {a.jpg, 01cd, x01cdy, a name with 0x7E, a 50-byte name}, the five dialects; every stream cut into reads: one unit per read, all coalesced, EVERY 1-cut, and every 2-cut among positions within 1 byte of a frame/chunk boundary, marker or length field (thorough: every 2-cut of streams <= 500 bytes). " +
 			"Oracle on FileEventer snapshots and socket replies: complete only when all bytes arrived, content byte-identical, one prescribed reply per control frame with serials 0,1,2... states = scripted sessions (paths through the progress state machine), transitions = reads. Non-trivial = session with >= 2 chunks",
 		Assumptions: []string{"reference layouts harness/ref/attach.go (Su-biao and the four dialect widths the repository documents)", "connection loop reached through the VerifRunConnection accessor (tag verif)"},
 		Run:         c15Run,
@@ -566,6 +566,20 @@ func c15Run(ctx *vc.Ctx, rep *vc.Report) {
 						}
 					}
 				}
+			}
+		}
+		// a lost chunk, the completion report, the resend of exactly what it named, the second completion report
+		for size := 3; size <= 6; size++ {
+			base := splitChunks(0, size, 2)
+			for drop := range base {
+				c := upCase{Dialect: di, AlarmID: "lost", Files: []upFile{{Name: "l.bin", Data: upData(size, 7)}, {Name: "whole.bin", Data: upData(3, 9)}}, Finish: true, Second: true}
+				for i, ch := range base {
+					if i != drop {
+						c.Chunks = append(c.Chunks, ch)
+					}
+				}
+				c.Chunks = append(c.Chunks, splitChunks(1, 3, 3)...)
+				segs(c, false)
 			}
 		}
 		// every name with every dialect once
